@@ -1,6 +1,7 @@
 package dbx
 
 import (
+	"encoding/json"
 	"bytes"
 	"fmt"
 	"sort"
@@ -755,6 +756,16 @@ func (o *Oracle) everyOp(idx int, op Op, pre, post *Dump, db sm.IStateMachine) {
 		}
 		if st[0].ConfigChangeIndex != v.ver || len(st[0].Replicas) != len(v.members) {
 			o.fail("C04", "view_mirrors_max", "state-answer", fmt.Sprintf("shard state answer for %d does not carry the view", sid), idx)
+		}
+	}
+	// the time the scheduler is given is the clock: one fixed step per tick, seen by every observer at once
+	if ctx, p := LookupContext(db); !p && ctx != nil {
+		var sc struct{ Tick uint64 }
+		if json.Unmarshal(ctx, &sc) == nil {
+			o.Run.Count("c05:context_time_checked")
+			if sc.Tick != post.Tick {
+				o.fail("C05", "time_advances_by_ticks", "context-time-not-the-clock", fmt.Sprintf("after %s the DB's logical time is %d, the scheduler context it serves says %d", op.Op, post.Tick, sc.Tick), idx)
+			}
 		}
 	}
 	// host records: time of the last report, never in the future
